@@ -1,0 +1,15 @@
+//go:build verif
+
+package lightpb
+
+// Machine-checked contracts for this package (comment-only; excluded from normal builds).
+
+//@ property C14
+//@ // ---- the model's write path seen from the server: ONE write, of the caller's message, and its verdict (the stored
+//@ // message, or the error and nothing) is what the caller gets ----
+//@ func (*Model).UpdateBrightness(light, opts) (res, err)
+//@   option only post     // the resource's own preconditions are the server's business
+//@   track Set
+//@   ensures [one-write] calls(Set) == old(calls(Set)) + 1 && istype(lastarg(Set, 1), *traits.Brightness) && cast(lastarg(Set, 1), *traits.Brightness) == light
+//@   ensures [answer] err == lastcall(Set, 1) && (err != nil ==> res == nil) && (err == nil && istype(lastcall(Set, 0), *traits.Brightness) ==> res == cast(lastcall(Set, 0), *traits.Brightness))
+//@   modifies all
